@@ -25,9 +25,31 @@ func buildTree(s gen.TreeSpec) (*newick.Node, []*newick.Node) {
 		nodes[i].Name = string(s.NameOf(i))
 		nodes[i].Distance = s.DistOf(i)
 	}
-	for i := 1; i < len(pa); i++ {
-		p := nodes[pa[i]]
-		p.Children = append(p.Children, nodes[i])
+	if s.SharedChildren && len(pa) > 1 {
+		cnt := make([]int, len(pa))
+		for i := 1; i < len(pa); i++ {
+			cnt[pa[i]]++
+		}
+		all := make([]*newick.Node, len(pa)-1, len(pa)+3) // one array for every child pointer
+		off := 0
+		for i := range nodes {
+			if cnt[i] > 0 {
+				nodes[i].Children = all[off:off:cap(all)][:0] // window starting at off, capacity to the end
+				off += cnt[i]
+			}
+		}
+		for i := 1; i < len(pa); i++ {
+			p := nodes[pa[i]]
+			p.Children = append(p.Children, nodes[i]) // stays inside the shared array
+		}
+		if trackShared {
+			sharedArrays[nodes[0]] = all[:cap(all)]
+		}
+	} else {
+		for i := 1; i < len(pa); i++ {
+			p := nodes[pa[i]]
+			p.Children = append(p.Children, nodes[i])
+		}
 	}
 	if s.EmptyLeaves != 0 {
 		for i, n := range nodes {
@@ -43,6 +65,11 @@ func buildTree(s gen.TreeSpec) (*newick.Node, []*newick.Node) {
 	}
 	return nodes[0], nodes
 }
+
+// sharedArrays remembers, per root, the backing array of a tree built with SharedChildren.
+// Only C19 asks for it (trackShared) and removes the entry when its check returns.
+var sharedArrays = map[*newick.Node][]*newick.Node{}
+var trackShared bool
 
 func refPreOrder(n *newick.Node, out []*newick.Node) []*newick.Node {
 	out = append(out, n)
@@ -67,7 +94,7 @@ type nodeSnap struct {
 }
 
 func snapshot(nodes []*newick.Node) []nodeSnap {
-	out := make([]nodeSnap, len(nodes))
+	out := make([]nodeSnap, len(nodes), len(nodes)+1)
 	for i, n := range nodes {
 		out[i] = nodeSnap{name: n.Name, dist: n.Distance, children: append([]*newick.Node(nil), n.Children...)}
 		if len(n.Children) > 0 {
@@ -109,7 +136,8 @@ func treeDepthAndFan(pa []int) (depth, fan int) {
 
 func genTreeShape(t *rapid.T, maxNodes int) gen.TreeSpec {
 	n := rapid.OneOf(rapid.IntRange(1, 8), rapid.IntRange(1, 40), rapid.IntRange(1, maxNodes)).Draw(t, "nodes")
-	return gen.TreeSpec{Parents: gen.DrawShape(t, n), EmptyLeaves: rapid.SampledFrom([]int{0, 0, 0, 1, 2, 3}).Draw(t, "emptyLeaves")}
+	return gen.TreeSpec{Parents: gen.DrawShape(t, n), EmptyLeaves: rapid.SampledFrom([]int{0, 0, 0, 1, 2, 3}).Draw(t, "emptyLeaves"),
+		SharedChildren: rapid.SampledFrom([]bool{false, true, false}).Draw(t, "sharedChildren")}
 }
 
 func genC19(t *rapid.T, thorough bool) C19Case {
@@ -133,7 +161,9 @@ func genC19(t *rapid.T, thorough bool) C19Case {
 }
 
 func checkC19(c C19Case, o *Obs) error {
+	trackShared = true
 	root, nodes := buildTree(c.Tree)
+	trackShared = false
 	pa := c.Tree.ParentArray()
 	depth, fan := treeDepthAndFan(pa)
 	o.NT = len(nodes) >= 3 && depth < len(nodes)-1
@@ -146,6 +176,21 @@ func checkC19(c C19Case, o *Obs) error {
 	o.Class("shape:" + c.Tree.Shape)
 	o.ClassIf(c.Tree.EmptyLeaves != 0, "leaves with empty non-nil Children")
 	snap := snapshot(nodes)
+	var sharedBefore []*newick.Node
+	if arr, ok := sharedArrays[root]; ok {
+		sharedBefore = append([]*newick.Node(nil), arr...)
+		defer delete(sharedArrays, root)
+		o.Class("children slices share one array")
+	}
+	sharedUnchanged := func(when string) error {
+		arr := sharedArrays[root]
+		for i := range sharedBefore {
+			if arr[i] != sharedBefore[i] {
+				return fmt.Errorf("%s modified the tree's storage: slot %d of the array shared by the Children slices changed (a write past the end of a Children slice)", when, i)
+			}
+		}
+		return nil
+	}
 
 	index := make(map[*newick.Node]int, len(nodes))
 	for i, n := range nodes {
@@ -184,6 +229,52 @@ func checkC19(c C19Case, o *Obs) error {
 		}
 		if err := sameSnapshot(nodes, snap); err != nil {
 			return fmt.Errorf("%s: %v", tc.name, err)
+		}
+		if err := sharedUnchanged(tc.name); err != nil {
+			return err
+		}
+	}
+	// Nested traversals: while an outer traversal is being consumed, the loop body walks the
+	// subtree of every yielded node; both must stay correct.
+	if len(nodes) <= 150 {
+		for _, pre := range []bool{true, false} {
+			name, wantOuter := "PostOrder", refPostOrder(root, nil)
+			outer := root.PostOrder()
+			if pre {
+				name, wantOuter, outer = "PreOrder", refPreOrder(root, nil), root.PreOrder()
+			}
+			k := 0
+			var nerr error
+			if p := catch(func() {
+				for n := range outer {
+					if k >= len(wantOuter) || n != wantOuter[k] {
+						nerr = fmt.Errorf("%s with a nested traversal in the loop body: outer item %d is node %d, want node %d (parents %s)", name, k, index[n], index[wantOuter[min(k, len(wantOuter)-1)]], abbreviateInts(pa))
+						return
+					}
+					k++
+					wantInner := refPostOrder(n, nil)
+					j := 0
+					for x := range n.PostOrder() {
+						if j >= len(wantInner) || x != wantInner[j] {
+							nerr = fmt.Errorf("%s: nested PostOrder of node %d differs at item %d (parents %s)", name, index[n], j, abbreviateInts(pa))
+							return
+						}
+						j++
+					}
+					if j != len(wantInner) {
+						nerr = fmt.Errorf("%s: nested PostOrder of node %d yields %d nodes, want %d", name, index[n], j, len(wantInner))
+						return
+					}
+				}
+			}); p != nil {
+				return fmt.Errorf("%s with a nested traversal panicked: %v", name, p)
+			}
+			if nerr != nil {
+				return nerr
+			}
+			if k != len(wantOuter) {
+				return fmt.Errorf("%s with a nested traversal in the loop body yields %d nodes, want %d", name, k, len(wantOuter))
+			}
 		}
 	}
 	// The value returned by PreOrder/PostOrder stands for the traversal: ranging over it again,
@@ -265,6 +356,9 @@ func exhaustiveC19(thorough bool, emit func(C19Case) bool) {
 						return false
 					}
 				}
+			}
+			if n <= 8 && !emit(C19Case{Tree: gen.TreeSpec{Parents: p, SharedChildren: true}}) {
+				return false
 			}
 			return emit(C19Case{Tree: gen.TreeSpec{Parents: p}})
 		}) {
